@@ -59,6 +59,7 @@ const (
 	holdBuilt = iota
 	holdMem
 	holdFile
+	holdMmap // memory-backed by a READ-ONLY mapping of a file (the way an index opens its segments)
 )
 
 type CaseCfg struct {
@@ -303,7 +304,7 @@ func GenLeaf(t *rapid.T, ctx *Ctx, sc *Scenario, cfg CaseCfg, label string) (*Se
 	}
 	hold := holdBuilt
 	if cfg.HoldAny {
-		hold = rapid.IntRange(holdBuilt, holdFile).Draw(t, label+":hold")
+		hold = rapid.IntRange(holdBuilt, holdMmap).Draw(t, label+":hold")
 	}
 	if hold != holdBuilt {
 		if err := c.reload(ctx, hold); err != nil {
@@ -329,6 +330,10 @@ func (c *SegCase) reload(ctx *Ctx, hold int) error {
 		c.Seg, err = ctx.LoadFile(c.Bytes)
 		c.Desc = "loadedFile:" + c.Desc
 		c.label("file-backed")
+	} else if hold == holdMmap {
+		c.Seg, err = ctx.LoadMmap(c.Bytes)
+		c.Desc = "loadedReadOnlyMapping:" + c.Desc
+		c.label("read-only-mapping")
 	} else {
 		c.Seg, err = LoadMem(c.Bytes)
 		c.Desc = "loadedMem:" + c.Desc
@@ -560,7 +565,7 @@ func GenMerge(t *rapid.T, ctx *Ctx, sc *Scenario, cfg CaseCfg, depth int, label 
 	}
 	hold := holdMem
 	if cfg.HoldAny {
-		hold = rapid.IntRange(holdMem, holdFile).Draw(t, label+":hold")
+		hold = rapid.IntRange(holdMem, holdMmap).Draw(t, label+":hold")
 	}
 	c, _, err := MergeCases(ctx, ins, drops, mode, hold)
 	if err != nil {
